@@ -91,6 +91,11 @@ func (c *Cache) Commit() (err error) {
 		if c.changes.removeAll[src] {
 			err = c.remoteFS.RemoveAll(src)
 		} else {
+			if c.remoteFS.IsDir(src) && c.bufferFS.IsDir(src) {
+				// created again as a directory after its removal: the journal is replayed
+				// by every Commit, the directory may already be filled from an earlier one
+				continue
+			}
 			err = c.remoteFS.Remove(src)
 		}
 		if err != nil {
